@@ -34,7 +34,7 @@ suite_ok=$(grep -c "test result: ok. 64[45] passed; 0 failed" $log)
 echo "== demo with change" >> $log
 install_demo "$@"
 run_demo "${5:-}" >> $log
-with_fail=$(sed -n '/== demo with change/,$p' $log | grep -c "test result: FAILED")
+with_fail=$(sed -n "/== demo with change/,\$p" $log | grep -c -E "test result: FAILED|error: test failed")
 git apply -R "$seed/patch.diff"
 echo "== demo without change" >> $log
 run_demo "${5:-}" >> $log
